@@ -92,6 +92,56 @@ def extra_cases(ctx, rnd, bases):
     return out
 
 
+def directed_bases(ctx, rnd):
+    """small headers that get the full treatment (every substitution, truncation, length perturbation) -- audit round 2:
+    level-2 headers from OS-9/68k (the length field is two bytes short: the header ends two bytes after it), with and without a
+    common CRC; zero-length -lh0- entries with name and path under Amiga and non-Amiga OS types at levels 0, 1, 2 (the Amiga
+    directory rule: a substitution that removes the name must make the header a directory for Amiga only); a symlink; a
+    level-3 header."""
+    import struct
+    res = []
+    for (lv, m, o, ln, exts, name) in [
+            (2, b"-lh5-", ord('K'), 7, [(1, b"n"), (2, b"d\xff"), (0, b"\0\0")], None),
+            (2, b"-lh5-", ord('K'), 7, [(1, b"nm")], None),
+            (2, b"-lh0-", ord('M'), 0, [(2, b"d\xff"), (1, b"n")], None),
+            (2, b"-lh0-", ord('A'), 0, [(2, b"d\xff"), (1, b"n"), (0, b"\0\0")], None),
+            (1, b"-lh0-", ord('U'), 0, [(2, b"d\xff")], b"n"),
+            (1, b"-lh0-", ord('A'), 0, [(2, b"d\xff")], b"n"),
+            (0, b"-lh0-", 0, 0, None, b"d\\n"),
+            (2, b"-lhd-", ord('U'), 0, [(0x50, struct.pack("<H", 0o120777)), (1, b"l|t")], None),
+            (3, b"-lh0-", ord('M'), 0, [(1, b"n"), (2, b"d\xff"), (0, b"\0\0")], None)]:
+        f = {"level": lv, "method": m, "clen": 0, "length": ln, "crc": rnd.getrandbits(16), "attr": 0x20, "os": o,
+             "time": 0x21 if lv < 2 else 1000000007}
+        if exts is not None:
+            f["exts"] = exts
+        if name is not None:
+            f["name"] = name
+        if lb.normalise(f) is None:
+            raise common.Broken("directed base is rejected by the reference")
+        hdr, data = hdrgen.member(f)
+        res.append((f, hdr, data))
+    return res
+
+
+def limit_cases(ctx, rnd):
+    """level-3 headers around the 1 MiB limit: (bytes, kind).  Well-formed headers (name, path, one large unknown header, common
+    CRC) whose total length is 1 MiB + k; all of the header is present in the input.  The independent predicate accepts
+    length <= 1 MiB only."""
+    out = []
+    for k in ([1, 32, 33, 4096] if ctx.quick else [1, 2, 31, 32, 33, 34, 1024, 4096, 65536]):
+        total = 1048576 + k
+        e = [(1, b"big.bin"), (2, b"top\xff"), (0, b"\0\0")]
+        used = 32 + sum(1 + len(p_) + 4 for _, p_ in e)
+        fill = total - used - 5
+        blob = bytes(rnd.randrange(256) for _ in range(4096))
+        e.insert(2, (0x7d, (blob * (fill // 4096 + 1))[:fill]))
+        f = {"level": 3, "method": b"-lh5-", "clen": 0, "length": 40, "crc": 7, "attr": 0x20, "os": ord('U'), "time": 1700000000, "exts": e}
+        hdr = lb.build_header(f)
+        assert len(hdr) == total
+        out.append((hdr + b"\0", "l3-over-limit"))
+    return out
+
+
 def run(ctx):
     rnd = random.Random(ctx.seed * 9576890767 + 12)
     cb = CBuild(PID)
@@ -114,6 +164,9 @@ def run(ctx):
             if len(hdr) > (120 if ctx.quick else 200):
                 continue
             bases.append((f, hdr, data))
+        nrandom_bases = len(bases)
+        bases += directed_bases(ctx, random.Random(ctx.seed * 104729 + 12012))
+        dist["directed_bases"] = len(bases) - nrandom_bases
         for (f, hdr, data) in bases:
             arch = hdr + data + b"\0"
             cases.append((arch, "valid"))
@@ -177,6 +230,7 @@ def run(ctx):
                 cases.append((arch[:cut], "big-trunc"))
         dist["big_headers"] = nbig
         cases += extra_cases(ctx, random.Random(ctx.seed * 7907 + 1212), bases)
+        cases += limit_cases(ctx, random.Random(ctx.seed * 1299709 + 121212))
         lines = ["hdr %s %s" % (rnd.choice(["file", "cbskip", "cbnoskip", "pipe"]) if k not in ("subst", "repaired", "ccrc") else "cbskip",
                                 a.hex() if a else "-") for a, k in cases]
         co = common.run_lines_parallel([cexe], lines)
